@@ -98,7 +98,7 @@ func specs() []*spec {
 		{
 			ID: "C03", Harness: "clustersim", Level: "exploration",
 			Batch: 40, QuickSecs: 30, ThoroughSecs: 600, PlanTimeoutS: 20,
-			RequiredProbes: []string{"allocations_judged", "preference_checked", "refused_not_enough_peers", "identical_options_shortcut", "exclusion_reallocated", "short_ttl_metric", "invalid_metric"},
+			RequiredProbes: []string{"allocations_judged", "preset_allocations_with_factor_minus_one", "preference_checked", "refused_not_enough_peers", "identical_options_shortcut", "exclusion_reallocated", "short_ttl_metric", "invalid_metric"},
 			Rule:           "plan = peer set of 1-8 members (one real Cluster, the others present through their metrics), allocator ascend|descend, cluster default factors, then 15-200 steps: metric arrivals (numeric incl. ties and max uint64, non-numeric, invalid, TTL 50 ms-10 min or already expired), seeded pinset entries with arbitrary current allocations, Pin / BlockAllocate (RPC) with every factor (also only one of the two given, the other from the configuration) pair, user (priority) allocations, identical or changed options, PeerRemove-driven exclusion; delays land calls before/at/after metric expiry instants. Each call is judged against the monitor table read at the same simulated instant. Non-trivial = >=1 call and >=1 irregular metric/exclusion fired; distinct = distinct canonical trace digest.",
 			Real:           []string{"ipfscluster.Cluster (Pin, pin, setupPin, allocate, obtainAllocations, PeerRemove/vacatePeer/repinFromPeer, BlockAllocate RPC, RPC server)", "allocator/ascendalloc, descendalloc, allocator/util.SortNumeric", "monitor/metrics.Store (freshness filter inside the model monitor)", "state/dsstate (pinset storage)", "gorpc over libp2p basic host on mocknet"},
 			Model:          []string{"consensus (single-copy pinset over dsstate, call log)", "monitor shell (table fed by the plan, real Store inside)", "tracker, IPFS connector, informer"},
@@ -116,7 +116,7 @@ func specs() []*spec {
 		{
 			ID: "C10", Harness: "clustersim", Level: "exploration",
 			Batch: 10, QuickSecs: 40, ThoroughSecs: 600, PlanTimeoutS: 30,
-			RequiredProbes: []string{"rehomed", "untouched_meets_min", "alert_delivered", "peer_removed", "expired_unpinned", "update_pin_in_pinset", "untrusted_follower_in_peerset"},
+			RequiredProbes: []string{"rehomed", "untouched_meets_min", "alert_delivered", "peer_removed", "expired_unpinned", "update_pin_in_pinset", "untrusted_follower_in_peerset", "config_passed_through_env_overlay"},
 			Rule:           "plan = 1-8 real Cluster peers sharing one model consensus, pinset of 1-12 entries (any allocations, factor pairs, options, entries created by pin-update), per-survivor metric state, re-pinning on/off, follower on/off; one member fails (ping alert delivered to every survivor in a plan-chosen order) or is removed with PeerRemove; expiry scenario: entries with expiry before/after now, StateSync on every peer after the clock moved. Pinset before/after and the per-peer consensus call log are compared. Non-trivial = >=1 failure/removal/sync and >=1 entry affected; distinct = distinct canonical trace digest.",
 			Real:           []string{"ipfscluster.Cluster (alertsHandler, vacatePeer, repinFromPeer, pin, allocate, PeerRemove, StateSync, distances/isClosest, getTrustedPeers)", "real allocator", "state/dsstate"},
 			Model:          []string{"consensus (records which peer issued each LogPin/LogUnpin)", "monitors (alert channels driven by the plan; same metric view on every peer)", "tracker, IPFS, informer"},
